@@ -29,3 +29,22 @@ VARIANTS = [
                                                  "            for kind, val in c.items():\n                constraint_constructor = FIELD_CONSTRAINTS_MAP.get(kind)\n                if constraint_constructor:\n                    if isinstance(val, dict):\n                        constraint = constraint_constructor(**val)\n                    else:\n                        constraint = constraint_constructor(val)"),
       kind='refactor'),
 ]
+
+VARIANTS += [
+    M('C09', 'type-validity-loop-loses-none', E(BS, "        if type(value) in (list, tuple):\n            for t in value:\n                self.check_validity('type', t, TYPES)\n        else:\n            self.check_validity('type', value, [None], TYPES)\n",
+                                                "        allowed_types = value if type(value) in (list, tuple) else [value]\n        for t in allowed_types:\n            self.check_validity('type', t, TYPES)\n"),
+      rule='C09-NULLG', key='TypeConstraint'),
+    M('C09', 'sign-validity-without-none', E(BS, "        self.check_validity('sign', value, [None], SIGNS)", "        self.check_validity('sign', value, SIGNS)"),
+      rule="C09-NULLG", key="SignConstraint"),
+    M('C09', 'tddafile-preset-after-load', [E(BS, "        self.loadpath = self.tddafile = loadpath\n        self.source = None\n", "        self.source = None\n"),
+                                            E(BS, "        else:\n            self.fields = Fields(per_field_constraints)\n", "        else:\n            self.fields = Fields(per_field_constraints)\n        self.loadpath = self.tddafile = loadpath\n")],
+      rule='C09-PRESET', key='DatasetConstraints.__init__'),
+    M('C09', 'date-flag-set-when-type-key-is-met', [E(BS, "            is_date = 'type' in c and c['type'] == 'date'\n", "            is_date = False\n"),
+                                                    E(BS, "                    if (is_date and kind in DATE_VALUED_CONSTRAINTS\n                            and constraint.value is not None):",
+                                                      "                    if kind == 'type':\n                        is_date = constraint.value == 'date'\n                    elif (is_date and kind in DATE_VALUED_CONSTRAINTS\n                            and constraint.value is not None):")],
+      rule='C09-KEYORDER', key='initialize_from_dict'),
+    M('C09', 'refactor-validity-lists-merged', E(BS, "        self.check_validity('sign', value, [None], SIGNS)", "        self.check_validity('sign', value, [None] + list(SIGNS))"), kind='refactor'),
+    M('C09', 'refactor-date-flag-from-get', E(BS, "            is_date = 'type' in c and c['type'] == 'date'\n", "            is_date = c.get('type') == 'date'\n"), kind='refactor'),
+    M('C09', 'refactor-counter-in-dict-loop', E(BS, "            for kind, value in c.items():\n                constraint_constructor = FIELD_CONSTRAINTS_MAP.get(kind)\n",
+                                                "            n_seen = 0\n            for kind, value in c.items():\n                n_seen += 1\n                constraint_constructor = FIELD_CONSTRAINTS_MAP.get(kind)\n"), kind='refactor'),
+]
